@@ -10,6 +10,8 @@ use crate::docs::SIM_TID;
 use crate::prng::Rng;
 
 thread_local! {
+    /// the thread is inside `yield_point` (whose own allocations must not become seams)
+    static IN_SCHED: std::cell::Cell<bool> = const { std::cell::Cell::new(false) };
     static CUR: std::cell::RefCell<Option<Arc<Sched>>> = const { std::cell::RefCell::new(None) };
 }
 
@@ -188,9 +190,16 @@ impl Sched {
     /// Called by simulated threads at every seam point.
     pub fn yield_point(&self) {
         let me = SIM_TID.with(|t| t.get());
-        if me == 0 {
+        if me == 0 || IN_SCHED.with(|f| f.replace(true)) {
             return;
         }
+        struct Reset;
+        impl Drop for Reset {
+            fn drop(&mut self) {
+                IN_SCHED.with(|f| f.set(false));
+            }
+        }
+        let _reset = Reset;
         if self.abandoned.load(std::sync::atomic::Ordering::Relaxed) {
             return; // schedule given up: everybody runs free to the end
         }
